@@ -1,4 +1,5 @@
 import NxProofs.RmcClient
+import NxProofs.RmcClientX
 /-!
 # C10 — each remote call gets its own response, whatever the interleaving
 
@@ -112,6 +113,80 @@ theorem wrap_counterexample :
       = [.sent 1 5, .set 1, .done 1 (.body [7]), .notReady 0] := by
   decide
 
+/-! ## one-way requests (`noresponse=True`) and requests in general: a call id names one request message -/
+
+/-- every request message of a run — one-way requests included — carries a call id of its own while the counter
+    does not wrap (fewer than 2^32 − 1 requests). So the answer a peer gives to a one-way request (or to any other
+    request) echoes an id that no other request carries: by `dup_unknown_inert` it reaches no other caller. -/
+theorem request_ids_distinct (ops : List Op) (h : nCalls ops < 4294967295) (t t' id : Nat)
+    (h1 : Out.sent t id ∈ (run init ops).2) (h2 : Out.sent t' id ∈ (run init ops).2) : t = t' :=
+  sent_ids_distinct init ops (by simp [init]; omega) t t' id h1 h2
+
+/-- a one-way request consumes its call id exactly like a call that waits (the next request gets the next id),
+    returns `None` at once and leaves nothing registered -/
+theorem oneway_consumes_id (s : State) (hc : s.closed = false) :
+    step s (.call true) = ({ s with nextTask := s.nextTask + 1, nextId := (s.nextId + 1) % 4294967296 },
+      [.sent s.nextTask s.nextId, .done s.nextTask .none]) := by
+  simp [step, hc]
+
+/-! ## connections with protocol servers registered (`RMCClient.start(servers)`): `cleanup()` awaits every
+    `server.logout(self)` after the atomic section that sets `closed` and the events. The extended machine
+    (`NxModel/Nex/RmcClientX.lean`) adds the two ways a hook can end (`hookReturn`, `hookRaise`) to the ops; a
+    hook that blocks for ever is the absence of both. -/
+
+/-- the call-matching behaviour of a connection with `k` servers is that of the core machine on the core ops,
+    whatever the logout hooks do and whenever they do it: every theorem above carries over -/
+theorem servers_do_not_matter (k : Nat) (ops : List XOp) :
+    (xrun (xinit 1 k) ops).1.core = (run init (coreOps ops)).1 ∧
+      coreOuts (xrun (xinit 1 k) ops).2 = (run init (coreOps ops)).2 :=
+  xrun_core (xinit 1 k) ops
+
+/-- closure at any moment of a connection with any number of servers, followed by anything — including logout
+    hooks that return late, raise, or never return (`later` then simply contains no `hookReturn`): every
+    still-suspended call has its event set and resuming it raises "closed" -/
+theorem close_wakes_all_with_servers (k : Nat) (ops : List XOp) (hd : distinctLive init (coreOps ops) = true)
+    (closeOp : Op) (hclose : closeOp = .eof ∨ closeOp = .cleanup) (later : List XOp) :
+    let x := (xrun (xstep (xrun (xinit 1 k) ops).1 (.core closeOp)).1 later).1
+    x.core.closed = true ∧
+      ∀ p ∈ x.core.frames, p.1 ∈ x.core.fired ∧ (xstep x (.core (.wake p.1))).2 = [.core (.done p.1 .closed)] := by
+  intro x
+  have e0 := (xrun_core (xinit 1 k) ops).1
+  have e1 := (xstep_core (xrun (xinit 1 k) ops).1 (.core closeOp)).1
+  have e2 := (xrun_core (xstep (xrun (xinit 1 k) ops).1 (.core closeOp)).1 later).1
+  have hx : x.core = (run (step (run init (coreOps ops)).1 closeOp).1 (coreOps later)).1 := by
+    show (xrun (xstep (xrun (xinit 1 k) ops).1 (.core closeOp)).1 later).1.core = _
+    rw [e2, e1, e0]
+    simp [coreOps, run]
+    rfl
+  obtain ⟨c1, c2⟩ := close_wakes_all (coreOps ops) hd closeOp hclose (coreOps later)
+  rw [hx]
+  refine ⟨c1, fun p hp => ?_⟩
+  obtain ⟨f1, f2⟩ := c2 p hp
+  refine ⟨f1, ?_⟩
+  rw [xstep_wake_outs, hx, f2]; rfl
+
+/-- a logout hook is entered (and `cleanup()` ends, normally or by a hook's exception) only when the connection is
+    already closed and every suspended call already has its event set: waking the callers never depends on a hook -/
+theorem hooks_run_after_wake (k : Nat) (ops : List XOp) (op : XOp)
+    (hd : distinctLive init (coreOps (ops ++ [op])) = true) (o : XOut)
+    (ho : o ∈ (xstep (xrun (xinit 1 k) ops).1 op).2)
+    (hk : (∃ srv, o = .logout srv) ∨ o = .cleanupReturned ∨ o = .cleanupRaised) :
+    let x := (xstep (xrun (xinit 1 k) ops).1 op).1
+    x.core.closed = true ∧ ∀ p ∈ x.core.frames, p.1 ∈ x.core.fired := by
+  intro x
+  have hinv := xrun_inv (xinit 1 k) ops (by simp [xinit])
+  have hc : x.core.closed = true := xstep_hook_closed _ op hinv o ho hk
+  have hx : x.core = (run init (coreOps (ops ++ [op]))).1 := by
+    have e := (xrun_core (xinit 1 k) (ops ++ [op])).1
+    have : xrun (xinit 1 k) (ops ++ [op]) = ((xstep (xrun (xinit 1 k) ops).1 op).1,
+        (xrun (xinit 1 k) ops).2 ++ (xstep (xrun (xinit 1 k) ops).1 op).2) := xrun_snoc _ _ _
+    rw [this] at e
+    exact e
+  have hR := (run_refines (rel_init 1) (coreOps (ops ++ [op])) hd).1
+  refine ⟨hc, fun p hp => ?_⟩
+  rw [hx] at hp hc ⊢
+  exact (closed_frames_ready hR hc p hp).1
+
 /-! non-vacuity -/
 example : distinctLive init [.call false, .call false, .recvResponse { mode := 1, protocol := 10, method := some 1, callId := 2, error := -1, body := [1] },
     .wake 1, .cleanup, .wake 0] = true := by decide
@@ -122,5 +197,11 @@ example : (run init [.call false, .call false, .recvResponse { mode := 1, protoc
     = [.sent 0 1, .sent 1 2, .set 1, .warnInvalidCallId 2, .set 0, .done 1 (.body [1]), .done 0 (.rmcError 0x80010005)] := by decide
 example : nCalls [.call false, .eof, .call true] < 4294967295 := by decide
 example : (run init [.call false, .eof, .wake 0]).2 = [.sent 0 1, .closing [0], .done 0 .closed] := by decide
+example : (xrun (xinit 1 2) [.core (.call false), .core (.call true), .core (.call false), .core .cleanup, .core (.wake 0), .hookReturn,
+    .hookRaise, .core (.wake 2)]).2
+    = [.core (.sent 0 1), .core (.sent 1 2), .core (.done 1 .none), .core (.sent 2 3), .core (.closing [2, 0]), .logout 0,
+       .core (.done 0 .closed), .logout 1, .cleanupRaised, .core (.done 2 .closed)] := by decide
+example : (xrun (xinit 1 0) [.core (.call false), .core .eof]).2 = [.core (.sent 0 1), .core (.closing [0]), .cleanupReturned] := by decide
+example : distinctLive init (coreOps [.core (.call false), .core .cleanup, .hookReturn]) = true := by decide
 
 end Nx.C10
